@@ -652,14 +652,15 @@ theorem outTarget_spec {m : Circ} {nm : NMap} (wf : WFc0 m) (ok : NmOK m nm) {l 
     obtain ⟨a, ha, rfl, hdp⟩ := h
     exact ⟨by omega, d, hd1, (nmFind_iff wf ok hd2).1 ha, hdp.symm⟩
 
-structure Inv5 (m : Circ) (nm : NMap) (st : Circ × List Nat) (rest : List (Nat × Option Nat)) : Prop where
+structure Inv5 (m : Circ) (nm : NMap) (all : List (Nat × Option Nat)) (st : Circ × List Nat) (rest : List (Nat × Option Nat)) : Prop where
   oi : OutInv (Pend []) (Pend rest) st nm
   nd : PendNodup rest
   keysNd : (rest.map (·.1)).Nodup
   lines5 : ∀ pr ∈ rest, OutLine m pr.1
+  sub : ∀ pr ∈ rest, pr ∈ all
   outs : ∀ e ∈ nm, ∀ p y, pin (st.1.nobj e.2).outs p = some y →
       (∃ l' ∈ m.lines, (m.lobj l').driver = some e.1 ∧ (m.lobj l').driverPin = p ∧ ∃ e' ∈ nm, (m.lobj l').reader = some e'.1)
-    ∨ (∃ l, OutLine m l ∧ l ∉ rest.map (·.1) ∧ outTarget m nm l = some (e.2, p))
+    ∨ (∃ l ll, (l, some ll) ∈ all ∧ OutLine m l ∧ l ∉ rest.map (·.1) ∧ outTarget m nm l = some (e.2, p))
 
 theorem outs_lt_of_driver {m : Circ} (wf : WFc0 m) {l d : Nat} (hl : l ∈ m.lines) (hd : (m.lobj l).driver = some d) :
     (m.lobj l).driverPin < (m.nobj d).outs.length := by
@@ -667,10 +668,10 @@ theorem outs_lt_of_driver {m : Circ} (wf : WFc0 m) {l d : Nat} (hl : l ∈ m.lin
   rw [hd] at e1; cases e1
   exact pin_eq_some_lt p1
 
-theorem gConnectOut_of_inv5 {m : Circ} {nm : NMap} {st : Circ × List Nat} {p : Nat × Option Nat}
+theorem gConnectOut_of_inv5 {m : Circ} {nm : NMap} {all : List (Nat × Option Nat)} {st : Circ × List Nat} {p : Nat × Option Nat}
     {rest : List (Nat × Option Nat)} (wf : WFc0 m) (ok : NmOK m nm)
     (keyCond : ∀ e ∈ nm, inIos m e.1 = true → forkCond m e.1 = true)
-    (inv : Inv5 m nm st (p :: rest)) : gConnectOut m nm st p = true := by
+    (inv : Inv5 m nm all st (p :: rest)) : gConnectOut m nm st p = true := by
   obtain ⟨l, o⟩ := p
   unfold gConnectOut
   cases o with
@@ -692,7 +693,7 @@ theorem gConnectOut_of_inv5 {m : Circ} {nm : NMap} {st : Circ × List Nat} {p : 
         obtain ⟨hlm, O, hO, hrO, hpO, hcase⟩ := outTarget_spec wf ok hol ht
         rcases hcase with ⟨hlen, hDm, hdp⟩ | ⟨hlen, d, hd, hDm, hdp⟩
         · -- the port is read inside the implementation: next free output of the fork made for it
-          rcases inv.outs (O, D) hDm dp y hp with ⟨l', hl', h1, h2, _⟩ | ⟨l2, hol2, hnr, ht2⟩
+          rcases inv.outs (O, D) hDm dp y hp with ⟨l', hl', h1, h2, _⟩ | ⟨l2, _, _, hol2, hnr, ht2⟩
           · have := outs_lt_of_driver wf hl' h1
             simp only at this
             rw [h2, hdp] at this
@@ -708,7 +709,7 @@ theorem gConnectOut_of_inv5 {m : Circ} {nm : NMap} {st : Circ × List Nat} {p : 
               have := outs_lt_of_driver wf hlm2 hd2
               omega
         · -- the port is only an output: the pin of the line's driver
-          rcases inv.outs (d, D) hDm dp y hp with ⟨l', hl', h1, h2, e', he', h3⟩ | ⟨l2, hol2, hnr, ht2⟩
+          rcases inv.outs (d, D) hDm dp y hp with ⟨l', hl', h1, h2, e', he', h3⟩ | ⟨l2, _, _, hol2, hnr, ht2⟩
           · have : l' = l := line_eq_of_driver wf hl' hlm h1 hd (by rw [h2, hdp])
             subst this
             rw [hrO] at h3; cases h3
@@ -727,26 +728,27 @@ theorem gConnectOut_of_inv5 {m : Circ} {nm : NMap} {st : Circ × List Nat} {p : 
               subst this
               exact hnotearlier l2 hnr (line_eq_of_driver wf hlm2 hlm hd2 hd (by rw [← hdp2, ← hdp]))
 
-theorem connectOut_inv5 {m : Circ} {nm : NMap} {st st' : Circ × List Nat} {p : Nat × Option Nat}
-    {rest : List (Nat × Option Nat)} (inv : Inv5 m nm st (p :: rest)) (hg : gConnectOut m nm st p = true)
-    (h : connectOut m nm st p = some st') : Inv5 m nm st' rest := by
+theorem connectOut_inv5 {m : Circ} {nm : NMap} {all : List (Nat × Option Nat)} {st st' : Circ × List Nat} {p : Nat × Option Nat}
+    {rest : List (Nat × Option Nat)} (inv : Inv5 m nm all st (p :: rest)) (hg : gConnectOut m nm st p = true)
+    (h : connectOut m nm st p = some st') : Inv5 m nm all st' rest := by
   have oi' := connectOut_inv inv.oi inv.nd hg h
   have hnd' := pendNodup_tail inv.nd
   have hk := List.nodup_cons.1 (by simpa using inv.keysNd : (p.1 :: rest.map (·.1)).Nodup)
   have hlines : ∀ pr ∈ rest, OutLine m pr.1 := fun pr hpr => inv.lines5 pr (by simp [hpr])
+  have hsub : ∀ pr ∈ rest, pr ∈ all := fun pr hpr => inv.sub pr (by simp [hpr])
   have weakO : ∀ e ∈ nm, ∀ q y, pin (st.1.nobj e.2).outs q = some y →
       (∃ l' ∈ m.lines, (m.lobj l').driver = some e.1 ∧ (m.lobj l').driverPin = q ∧ ∃ e' ∈ nm, (m.lobj l').reader = some e'.1)
-    ∨ (∃ l, OutLine m l ∧ l ∉ rest.map (·.1) ∧ outTarget m nm l = some (e.2, q)) := by
+    ∨ (∃ l ll, (l, some ll) ∈ all ∧ OutLine m l ∧ l ∉ rest.map (·.1) ∧ outTarget m nm l = some (e.2, q)) := by
     intro e he q y hq
-    rcases inv.outs e he q y hq with h1 | ⟨l, a, b, c1⟩
+    rcases inv.outs e he q y hq with h1 | ⟨l, ll, a0, a, b, c1⟩
     · exact Or.inl h1
-    · exact Or.inr ⟨l, a, fun hm => b (by simp only [List.map_cons, List.mem_cons]; exact Or.inr hm), c1⟩
+    · exact Or.inr ⟨l, ll, a0, a, fun hm => b (by simp only [List.map_cons, List.mem_cons]; exact Or.inr hm), c1⟩
   obtain ⟨l, o⟩ := p
   cases o with
   | none =>
     simp only [connectOut, Option.some.injEq] at h
     subst h
-    exact ⟨oi', hnd', hk.2, hlines, weakO⟩
+    exact ⟨oi', hnd', hk.2, hlines, hsub, weakO⟩
   | some ll =>
     simp only [connectOut] at h
     cases ht : outTarget m nm l with
@@ -756,12 +758,12 @@ theorem connectOut_inv5 {m : Circ} {nm : NMap} {st st' : Circ × List Nat} {p : 
       simp only [ht, Option.some.injEq] at h
       subst h
       have hn := setDriver_nobj st.1 ll D dp
-      refine ⟨oi', hnd', hk.2, hlines, ?_⟩
+      refine ⟨oi', hnd', hk.2, hlines, hsub, ?_⟩
       intro e he q y hq
       rw [(hn e.2).2.2.2.2.2] at hq
       by_cases h1 : e.2 = D ∧ q = dp
       · right
-        refine ⟨l, inv.lines5 (l, some ll) (by simp), hk.1, ?_⟩
+        refine ⟨l, ll, inv.sub (l, some ll) (by simp), inv.lines5 (l, some ll) (by simp), hk.1, ?_⟩
         rw [ht, h1.1, h1.2]
       · have : pin (st.1.nobj e.2).outs q = some y := by
           split at hq
@@ -930,9 +932,10 @@ theorem substGuards_of_static {c : Circ} {i : Nat} {m : Circ} (wfc : WFc0 c) (hs
             have r1 := (wf.insBack a (wf.ioIn a ha') 0 y h1).2.1
             have r2 := (wf.insBack b (wf.ioIn b hb') 0 y h2).2.1
             rw [r1] at r2; exact Option.some.inj r2
-          have inv5_0 : Inv5 m nm (c4, []) (sh.outLines.zip (padTo (c.nobj i).outs sh.outLines.length)) := by
+          have inv5_0 : Inv5 m nm (sh.outLines.zip (padTo (c.nobj i).outs sh.outLines.length)) (c4, [])
+              (sh.outLines.zip (padTo (c.nobj i).outs sh.outLines.length)) := by
             refine ⟨⟨inv4.ci.s.congr_pred (fun _ => Iff.rfl) (fun l => zip_padTo_pend har'.2 l), inv4.ci.nm,
-              fun n hn => by simp at hn⟩, zip_padTo_pendNodup har'.2 hinjO, zip_map_fst_nodup houtN, ?_, ?_⟩
+              fun n hn => by simp at hn⟩, zip_padTo_pendNodup har'.2 hinjO, zip_map_fst_nodup houtN, ?_, fun _ h => h, ?_⟩
             · intro pr hpr
               have := mem_zip_fst hpr
               rw [hsp2] at this
@@ -943,7 +946,7 @@ theorem substGuards_of_static {c : Circ} {i : Nat} {m : Circ} (wfc : WFc0 c) (hs
             · intro e he p y hp
               obtain ⟨_, l', h1, h3⟩ := inv4.outs e he p y hp
               exact Or.inl ⟨l', h1, h3⟩
-          exact (foldGO (connectOut m nm) (gConnectOut m nm) (fun st rest => Inv5 m nm st rest)
+          exact (foldGO (connectOut m nm) (gConnectOut m nm) (fun st rest => Inv5 m nm (sh.outLines.zip (padTo (c.nobj i).outs sh.outLines.length)) st rest)
             (fun s a rest hinv => gConnectOut_of_inv5 wf ok nmi.keyCond hinv)
             (fun s a rest s' hinv hf => connectOut_inv5 hinv (gConnectOut_of_inv5 wf ok nmi.keyCond hinv) hf)
             _ (c4, []) inv5_0).1
